@@ -1375,7 +1375,10 @@ class Engine:
         if con is not None:
             return self.apply_contract(state, con, bound, node)
         if self.inline is not None and self.spec_mode == 0 and (cname, name) not in self.inline \
-                and ("*", name) not in self.inline and (cname, "*") not in self.inline:
+                and ("*", name) not in self.inline and (cname, "*") not in self.inline \
+                and not (name.startswith("_") and not name.startswith("__init") and not (name.startswith("__") and name.endswith("__"))):
+            # (a private helper without a contract - the usual result of an "extract method" refactoring - is executed
+            #  in line: its body is analysed in the caller's context, nothing is assumed about it)
             self.unsupported("call to %s.%s has neither a contract nor an inline permission" % (cname, name), node)
         return self.call_function(state, ci, name, fn, None, None, node, bound=bound, module=module)
 
